@@ -27,7 +27,7 @@ BLOCK = 4096
 
 ENCODINGS = ('int', 'collide', 'ident', 'tuple', 'mixed')
 # how the edges are handed to add_neighbors
-BUILDS = ('list', 'set', 'shared', 'steps')
+BUILDS = ('list', 'set', 'shared', 'steps', 'empty_first', 'unknown_first', 'gen', 'gen_unknown')
 
 
 def setup_worker():
@@ -53,7 +53,7 @@ def cases(tier, seed):
                             yield [n, start, min(total, start + BLOCK), enc,
                                    list(perm), lazy, unknown]
                 # other ways of building the same graph (hashable nodes)
-                if enc in ('int', 'tuple') and perm == perms[0]:
+                if enc in ('int', 'tuple', 'ident') and perm == perms[0]:
                     for build in BUILDS[1:]:
                         for start in range(0, total, BLOCK):
                             yield [n, start, min(total, start + BLOCK), enc,
@@ -140,7 +140,11 @@ def run_graph(n, bits, enc, perm, lazy, unknown, build='list'):
     back = {(v if mh is None else id(v)): i for i, v in enumerate(vals)}
     viol = []
     try:
-        g = DiGraph(vals, make_hashable=mh) if mh is None else DiGraph(vals)
+        if build in ('gen', 'gen_unknown'):
+            # the documented argument type is "iterator": one-shot generators
+            g = DiGraph((v for v in vals), make_hashable=mh) if mh is None else DiGraph(v for v in vals)
+        else:
+            g = DiGraph(vals, make_hashable=mh) if mh is None else DiGraph(vals)
         nbs = [[vals[j] for j in range(n) if (adj[i] >> j) & 1] for i in range(n)]
         if build == 'list':
             for i in range(n):
@@ -153,6 +157,19 @@ def run_graph(n, bits, enc, perm, lazy, unknown, build='list'):
             for i in range(n):
                 if nbs[i]:
                     g.add_neighbors(vals[i], set(nbs[i]))
+        elif build in ('empty_first', 'unknown_first'):
+            # a node's first call contributes no known neighbour; its edges
+            # follow one call at a time
+            for i in range(n):
+                g.add_neighbors(vals[i], [] if build == 'empty_first' else [unk])
+            for i in range(n):
+                for x in nbs[i]:
+                    g.add_neighbors(vals[i], [x])
+        elif build in ('gen', 'gen_unknown'):
+            for i in range(n):
+                if nbs[i] or build == 'gen_unknown':
+                    g.add_neighbors(vals[i], itertools.chain((x for x in nbs[i]),
+                                                             iter([unk] if build == 'gen_unknown' else [])))
         elif build == 'steps':
             # the edges of a node arrive in two calls
             for rnd in (0, 1):
